@@ -13,6 +13,7 @@ LEAN_MODULES = ["NiftyVerif.Props.C25"]
 DRIVER = "Driver/C25.lean"
 OBLIGATIONS = ["NiftyVerif.C25." + t for t in (
     "crash_safe_all", "crash_safe_all_single", "marker_implies_complete", "uninterrupted_all", "natSys_lawful",
+    "natSys_map_lawful",
     "asFound_marker_truncated", "asFound_marker_before_history", "asFound_marker_before_minisanity_history",
     "asFound_latest_in_place", "atomicOnly_latest_window_witness", "crash_safe_latest", "crash_safe_latest_single",
     "marker_implies_complete_latest")]
@@ -35,8 +36,8 @@ TRUSTED_BASE = [
 ASSUMPTIONS = [
     "a crash is a process kill; power loss is outside the model", "os.replace is atomic",
     "single task (comm=None); the restarted call gets the same arguments",
-    "MAP runs (n_samples = 0: one sample file, no mean file, resume through SampleList.load) are not in the Lean model; they "
-    "are covered by the oracle only (every op boundary and partial flush of a 3-iteration run, both strategies)",
+    "MAP runs (n_samples = 0: one sample file, no mean file, resume through SampleList.load) are instances of the model "
+    "(encMean = none); runs mixing VI and MAP iterations are covered by the oracle only",
 ]
 VOLATILE = ("minisanity.txt", "counting_report.txt")      # contain datetime.now(): never compared byte-wise
 
@@ -454,11 +455,13 @@ def _real_kill(pos, ops):
 def _configs(ctx):
     seed = ctx.rng.randrange(1000)
     cfgs = [dict(n=3, seed=seed, n_samples=1, strategy="all", r0=False),
-            dict(n=3, seed=seed, n_samples=1, strategy="latest", r0=False)]
+            dict(n=3, seed=seed, n_samples=1, strategy="latest", r0=False),
+            dict(n=3, seed=seed + 5, n_samples=0, strategy="latest", r0=False)]      # MAP run
     if not ctx.quick:
         cfgs += [dict(n=3, seed=seed + 1, n_samples=2, strategy="all", r0=True, geovi=True),
                  dict(n=4, seed=seed + 2, n_samples=1, strategy="latest", r0=True),
-                 dict(n=2, seed=seed + 3, n_samples=2, strategy="latest", r0=False, geovi=True)]
+                 dict(n=2, seed=seed + 3, n_samples=2, strategy="latest", r0=False, geovi=True),
+                 dict(n=3, seed=seed + 6, n_samples=0, strategy="all", r0=True)]
     return cfgs
 
 
@@ -539,7 +542,7 @@ def _corpus(ctx):
 def run(ctx):
     import random
     import time
-    jobs = [("corpus", None)] + [("cfg", c) for c in _configs(ctx)] + [("map", "latest"), ("map", "all"), ("map", "latest-mixed")] + ([("opaque", None)] if not ctx.quick else [])
+    jobs = [("corpus", None)] + [("cfg", c) for c in _configs(ctx)] + [("map", "latest-mixed")] + ([("opaque", None)] if not ctx.quick else [])
     rngs = [random.Random(ctx.rng.randrange(10 ** 9)) for _ in jobs]
     errs = []
 
@@ -559,7 +562,7 @@ def run(ctx):
         except BaseException as e:  # noqa: BLE001 - re-raised in the main thread
             errs.append(e)
         with _LOCK:
-            ctx.extra.setdefault("phase_s", {})[kind + ("" if cfg is None else ":" + (cfg if isinstance(cfg, str) else cfg["strategy"] + str(cfg["seed"])))] = \
+            ctx.extra.setdefault("phase_s", {})[kind + ("" if cfg is None else ":" + (cfg if isinstance(cfg, str) else cfg["strategy"] + str(cfg["seed"]) + ("" if cfg["n_samples"] else "map")))] = \
                 round(time.time() - t0, 1)
     # the configurations are independent: one thread each (they spend their time waiting for worker processes)
     width = 6 if ctx.quick else 3
@@ -587,9 +590,10 @@ def _session_chunks(ctx, cfg, scenarios, nsess, extra=None):
 
 def _run_cfg(ctx, cfg):
     n, r0, strat = cfg["n"], cfg["r0"], cfg["strategy"]
-    nsamp = 2 * cfg["n_samples"]
+    vi = cfg["n_samples"] > 0           # MAP run (n_samples = 0): SampleList, one sample file, no mean file
+    nsamp = 2 * cfg["n_samples"] if vi else 1
     protos = ("repaired", "atomicOnly", "asFound")
-    base = dict(strategy=strat, total=n, nsamp=nsamp)
+    base = dict(strategy=strat, total=n, nsamp=nsamp, vi=vi)
     mo = dict(zip(protos, ctx.model(DRIVER, [dict(op="ops", proto=p, resume=r0, **base) for p in protos])))
     # phase A: reference run (which protocol does the code follow?)
     try:
